@@ -31,11 +31,11 @@ type NodeConf struct {
 	Label     string `json:",omitempty"`
 	SkipLabel bool   `json:",omitempty"`
 
-	Keys        [][]byte `json:",omitempty"` // Keys[0] is the primary
-	EmptyKeyring bool    `json:",omitempty"` // a keyring without keys (encryption starts when a key is installed at run time)
-	NoVerifyIn  bool     `json:",omitempty"`
-	NoVerifyOut bool     `json:",omitempty"`
-	NoCompress  bool     `json:",omitempty"`
+	Keys         [][]byte `json:",omitempty"` // Keys[0] is the primary
+	EmptyKeyring bool     `json:",omitempty"` // a keyring without keys (encryption starts when a key is installed at run time)
+	NoVerifyIn   bool     `json:",omitempty"`
+	NoVerifyOut  bool     `json:",omitempty"`
+	NoCompress   bool     `json:",omitempty"`
 
 	ProbeIntervalMs  int      `json:",omitempty"` // 0 = 1000
 	ProbeTimeoutMs   int      `json:",omitempty"` // 0 = 500
